@@ -385,9 +385,17 @@ impl<'a> OpenResponsesSsePipe<'a> {
     }
 
     async fn push_sse_str(&mut self, chunk: &str) -> bool {
-        let parsed = self.decoder.push(chunk);
+        let mut parsed = self.decoder.push(chunk);
         if parsed.is_empty() {
             return false;
+        }
+        // The read loop stops at the chunk that carries `[DONE]`; drop whatever follows the
+        // terminal marker inside that chunk too, so the frames do not depend on chunking.
+        if let Some(done_at) = parsed
+            .iter()
+            .position(|event| event.kind == ParsedEventKind::Done)
+        {
+            parsed.truncate(done_at + 1);
         }
 
         let mut frames = Vec::new();
